@@ -1,4 +1,4 @@
-import WacProofs.Lemmas.EncodeImports
+import WacProofs.Lemmas.EncodeImports3
 /-
   `resolve_imports` (what it records) and the two fill loops of `encode_imports`; then the
   initial loop invariant.
@@ -408,10 +408,46 @@ theorem encodeImports_inv {g : GraphVal} {o : Opts} (wf : WF g) (importNodes : L
           rcases List.mem_append.mp he' with h1 | h1 <;> exact (List.mem_filter.mp h1).1
         obtain ⟨e0, he0, rfl⟩ := List.mem_map.mp this
         exact ⟨e0, he0, rfl⟩
-      have hA := importAll_ok id l (st := {}) (enc := []) [] sync_init (fun _ _ h => by simp [amGet] at h)
-        (fun e he' => by
-          obtain ⟨e0, he0, rfl⟩ := hlsub e he'
-          exact fun hk => hok.ifaceNamed e0 he0 hk)
+      have hmemiff : ∀ e, e ∈ l ↔ e ∈ fixedImports agg' := by
+        intro e
+        show e ∈ (fixed.filter fun e => e.2.kind = .instance) ++ (fixed.filter fun e => ¬ (e.2.kind = .instance)) ↔ e ∈ fixed
+        simp only [List.mem_append, List.mem_filter, decide_eq_true_eq, decide_not, Bool.not_eq_eq_eq_not,
+          Bool.not_true, decide_eq_false_iff_not]
+        constructor
+        · rintro (h | h) <;> exact h.1
+        · intro h
+          by_cases hk : e.2.kind = .instance
+          · exact Or.inl ⟨h, hk⟩
+          · exact Or.inr ⟨h, hk⟩
+      have hpriv : ∀ i, privIn (fixedImports agg') i → privIn l i := by
+        intro i ⟨h1, h2⟩
+        constructor
+        · intro hm
+          obtain ⟨e, he', heq⟩ := List.mem_map.mp hm
+          exact h1 (List.mem_map.mpr ⟨e, (hmemiff e).mp he', heq⟩)
+        · intro hm
+          simp only [allDepsOf, List.mem_flatMap] at hm h2
+          obtain ⟨e, he', hd⟩ := hm
+          exact h2 ⟨e, (hmemiff e).mp he', hd⟩
+      have hndl : (l.map (·.1)).Nodup := by
+        have hfix : (fixed.map (·.1)).Nodup := by
+          have : fixed.map (·.1) = agg'.imports.map (·.1) := by simp [fixed, List.map_map, Function.comp_def]
+          rw [this]; exact hok.keysNodup
+        have hperm : (l.map (·.1)).Perm (fixed.map (·.1)) := by
+          apply List.Perm.map
+          show ((fixed.filter fun e => decide (e.2.kind = .instance)) ++
+            (fixed.filter fun e => decide (¬ (e.2.kind = .instance)))).Perm fixed
+          have := List.filter_append_perm (fun e : Str × ItemTy => decide (e.2.kind = .instance)) fixed
+          simpa [decide_not] using this
+        exact hperm.nodup_iff.mpr hfix
+      have hA := importAll_ok2 l hndl
+        (fun e he' hk => by
+          rcases hok.ifaceNamed e ((hmemiff e).mp he') hk with h | h | ⟨i, h1, h2, h3⟩
+          · exact Or.inl h
+          · exact Or.inr (Or.inl h)
+          · exact Or.inr (Or.inr ⟨i, h1, hpriv i h2, fun e' he2 => h3 e' ((hmemiff e').mp he2)⟩))
+        l (st := {}) (enc := []) [] (by simp) sync_init
+        (fun _ _ h => by simp [amGet] at h) (fun _ h => by simp [amGet] at h)
         (fun _ _ _ h => by simp [amGet] at h)
       generalize hgen : importAll id l {} [] = res at he hA
       obtain ⟨stA, enc⟩ := res
